@@ -254,6 +254,8 @@ def scan_source(src_dir):
                 j += 1
             body = txt[i:j - 1]
             body = re.sub(r'//[^\n]*', '', body)
+            body = re.sub(r'"(?:[^"\\]|\\.)*"', '""', body)   # string literals (attribute arguments) may contain brackets and commas
+            body = re.sub(r'#\[[^\]]*\]', '', body)
             vs, d, cur = [], 0, ''
             for c in body:
                 if c in '({<':
@@ -821,6 +823,8 @@ class Interp:
             head, _, last = path.rpartition('::')
             if head in self.enums and last in self.enums[head]:
                 return Enum(head, last, vals)
+            if head.startswith('chiritori::') and head[11:] in self.enums and last in self.enums[head[11:]]:
+                return Enum(head[11:], last, vals)
             if head == 'std::option::Option':
                 return Enum('Option', last, vals)
             if head == 'std::result::Result':
@@ -919,12 +923,23 @@ class Interp:
             key = (recv_ty.lstrip('&').strip(), trait.split('::')[-1], meth)
             if key in self.impls:
                 return self.call(self.impls[key], argv)
+            # one derive may generate impls of several traits (derive(Parser) -> Parser, CommandFactory, FromArgMatches, Args)
+            alt = [v for k, v in self.impls.items() if isinstance(k, tuple) and k[0] == key[0] and k[2] == meth and 'main.rs' in v]
+            if len(alt) == 1:
+                return self.call(alt[0], argv)
             if recv_ty.startswith('dyn '):
                 recv = deref(argv[0])
                 key = (getattr(recv, 'ty', None), trait.split('::')[-1], meth)
                 if key in self.impls:
                     return self.call(self.impls[key], argv)
                 raise Unsupported(f'dyn dispatch {key}')
+        if name.startswith('chiritori::') and getattr(self.crate, 'has_cli', False):
+            # the cli crate names library items with the crate prefix
+            short = name[len('chiritori::'):]
+            if short in self.funcs:
+                return self.call(short, argv)
+            if short in self.impls:
+                return self.call(self.impls[short], argv)
         mdl = self.models.lookup(name)
         if mdl is None:
             # a local holding a closure / fn item called directly:  _7(move _8)
